@@ -123,48 +123,43 @@ theorem Num.not_lt_iff_le (x m : Num) (hx : x.isNan = false) (hm : m.isNan = fal
 def numDeclHolds (c : NumConv) (x : Num) : Prop :=
   (∀ m, c.minVal = some m → m.le x) ∧ (∀ m, c.maxVal = some m → x.le m)
 
-theorem numLtOpt_false_iff (x : Num) (b : Option Num) (hx : x.isNan = false) (hb : ∀ m, b = some m → m.isNan = false) :
-    numLtOpt x b = false ↔ ∀ m, b = some m → m.le x := by
+theorem Num.leB_iff_le (a b : Num) : a.leB b = true ↔ a.le b := by
+  cases a <;> cases b <;> simp [Num.leB, Num.le]
+
+theorem numLtOpt_false_iff (x : Num) (b : Option Num) : numLtOpt x b = false ↔ ∀ m, b = some m → m.le x := by
   cases b with
   | none => simp [numLtOpt]
-  | some m => simp [numLtOpt, Num.not_lt_iff_le x m hx (hb m rfl)]
+  | some m => simp [numLtOpt, Num.leB_iff_le]
 
-theorem numGtOpt_false_iff (x : Num) (b : Option Num) (hx : x.isNan = false) (hb : ∀ m, b = some m → m.isNan = false) :
-    numGtOpt x b = false ↔ ∀ m, b = some m → x.le m := by
+theorem numGtOpt_false_iff (x : Num) (b : Option Num) : numGtOpt x b = false ↔ ∀ m, b = some m → x.le m := by
   cases b with
   | none => simp [numGtOpt]
-  | some m => simp [numGtOpt, Num.not_lt_iff_le m x (hb m rfl) hx]
+  | some m => simp [numGtOpt, Num.leB_iff_le]
 
-/-- the full statement for float attributes (false: see `C08_float_full_false`) -/
-def C08_float_full : Prop :=
-  ∀ (toFloat : Val → Except String Num) (c : NumConv) (v : Val),
-    accepted (realValidate toFloat c v) ↔ ∃ x, toFloat v = .ok x ∧ numDeclHolds c x
-
-/-- NaN passes every declared bound: `Required(float, min=0)` accepts `float('nan')` although `0 ≤ nan` is false.
-    (Replayed on the real code by the engine on every run.) -/
-theorem C08_float_full_false : ¬ C08_float_full := by
-  intro h
-  have := (h (fun _ => .ok .nan) { minVal := some (.fin 0 1), maxVal := none } (.flt .nan)).mp
-    ⟨.flt .nan, by simp [realValidate, numLtOpt, numGtOpt, Num.lt]⟩
-  obtain ⟨x, hx, hd⟩ := this
-  injection hx with hx
-  subst hx
-  exact hd.1 _ rfl
-
-/-- **float attributes.** For every declaration with non-NaN bounds and every candidate whose `float()` is not NaN:
-    accepted iff `min ≤ x ≤ max` as exact numbers (±inf included). -/
-theorem C08_float_partial (toFloat : Val → Except String Num) (c : NumConv) (v : Val)
-    (hmin : ∀ m, c.minVal = some m → m.isNan = false) (hmax : ∀ m, c.maxVal = some m → m.isNan = false)
-    (hv : ∀ x, toFloat v = .ok x → x.isNan = false) :
+/-- **float attributes.** For every declaration and every candidate (NaN, ±inf and NaN bounds included):
+    accepted iff `float(v)` exists and `min ≤ x ≤ max` as exact numbers; NaN satisfies no bound
+    (`not val >= min` / `not val <= max`, the fix of 626bc5b). -/
+theorem C08_float (toFloat : Val → Except String Num) (c : NumConv) (v : Val) :
     accepted (realValidate toFloat c v) ↔ ∃ x, toFloat v = .ok x ∧ numDeclHolds c x := by
   unfold realValidate accepted numDeclHolds
   cases hx : toFloat v with
   | error e => simp
   | ok x =>
-    have hxn := hv x hx
     simp only [Except.ok.injEq, exists_eq_left']
-    rw [← numLtOpt_false_iff x c.minVal hxn hmin, ← numGtOpt_false_iff x c.maxVal hxn hmax]
+    rw [← numLtOpt_false_iff x c.minVal, ← numGtOpt_false_iff x c.maxVal]
     cases h1 : numLtOpt x c.minVal <;> cases h2 : numGtOpt x c.maxVal <;> simp
+
+/-- in particular NaN is rejected as soon as a bound is declared -/
+theorem C08_float_nan_rejected (toFloat : Val → Except String Num) (c : NumConv) (v : Val)
+    (hv : toFloat v = .ok .nan) (hb : c.minVal.isSome ∨ c.maxVal.isSome) : ¬ accepted (realValidate toFloat c v) := by
+  rw [C08_float]
+  rintro ⟨x, hx, h1, h2⟩
+  rw [hv] at hx; injection hx with hx; subst hx
+  rcases hb with hb | hb
+  · obtain ⟨m, hm⟩ := Option.isSome_iff_exists.mp hb
+    have := h1 m hm; cases m <;> simp [Num.le] at this
+  · obtain ⟨m, hm⟩ := Option.isSome_iff_exists.mp hb
+    have := h2 m hm; cases m <;> simp [Num.le] at this
 
 /-- the accepted value is `float(val)` -/
 theorem C08_float_value (toFloat : Val → Except String Num) (c : NumConv) (v r : Val)
